@@ -10,7 +10,14 @@ use crate::prng::Rng;
 use crate::rm::decide::{Carrier, Stage, Verdict};
 use crate::run::{finish, preflight, Ctx, Report, Tally, Tier};
 
-pub const MUTATIONS: [&str; 33] = [
+pub const MUTATIONS: [&str; 40] = [
+    "structured-edit-auth",
+    "timestamp-alias",
+    "sig-decorated",
+    "sig-nonhex",
+    "signed-list-edit",
+    "form-pairs-edit",
+    "form-raw-append",
     "structured-edit-path",
     "structured-edit-query",
     "structured-edit-header",
@@ -47,8 +54,9 @@ pub const MUTATIONS: [&str; 33] = [
 ];
 
 /// mutations that change signed content by construction: acceptance is a violation whatever the model says
-const BY_CONSTRUCTION: [&str; 8] =
-    ["body-byte", "body-append", "method", "timestamp-plus-1s", "timestamp-minus-1s", "secret-bit", "sig-digit", "sig-zero"];
+const BY_CONSTRUCTION: [&str; 11] = [
+    "body-byte", "body-append", "method", "timestamp-plus-1s", "timestamp-minus-1s", "secret-bit", "sig-digit", "sig-zero", "sig-nonhex", "form-pairs-edit", "timestamp-alias",
+];
 
 fn flip_byte(r: &mut Rng, v: &mut Vec<u8>) -> bool {
     if v.is_empty() {
@@ -245,6 +253,151 @@ fn mutate(
                 return None;
             }
         }
+        "timestamp-alias" => {
+            // another spelling that a lenient, normalising or clamping reader would map to the parent's instant (or to
+            // its neighbour): every one of them has an out-of-range field, so none is a timestamp at all
+            let (y, mo, d, h, mi, sec) = l.t.civil();
+            let dim = crate::rm::time::days_in_month;
+            let mut c: Vec<(i64, i64, i64, i64, i64, i64)> = Vec::new();
+            if mi > 0 && sec <= 39 {
+                c.push((y, mo, d, h, mi - 1, sec + 60));
+            }
+            if h > 0 && mi <= 39 {
+                c.push((y, mo, d, h - 1, mi + 60, sec));
+            }
+            if d > 1 {
+                c.push((y, mo, d - 1, h + 24, mi, sec));
+            }
+            if mo > 1 && d + dim(y, mo - 1) <= 99 {
+                c.push((y, mo - 1, d + dim(y, mo - 1), h, mi, sec));
+            }
+            if y > 1 {
+                c.push((y - 1, mo + 12, d, h, mi, sec));
+            }
+            if sec == 59 {
+                c.push((y, mo, d, h, mi, 60));
+                c.push((y, mo, d, h, mi, 61));
+            }
+            if d == dim(y, mo) && mo < 12 {
+                c.push((y, mo + 1, 0, h, mi, sec));
+            }
+            if h == 0 && mi == 0 && sec == 0 && d > 1 {
+                c.push((y, mo, d - 1, 24, 0, 0));
+            }
+            if c.is_empty() {
+                return None;
+            }
+            let (y, mo, d, h, mi, sec) = *r.pick(&c);
+            ov.ts_text = Some(if r.coin() {
+                format!("{:04}{:02}{:02}T{:02}{:02}{:02}Z", y, mo, d, h, mi, sec)
+            } else {
+                format!("{:04}-{:02}-{:02}T{:02}:{:02}:{:02}Z", y, mo, d, h, mi, sec)
+            });
+        }
+        "sig-decorated" => {
+            let s = match r.below(9) {
+                0 => format!("{} ", parent_sig),
+                1 => format!(" {}", parent_sig),
+                2 => format!("{}\t", parent_sig),
+                3 => format!("{}\n", parent_sig),
+                4 => format!("{}\u{0}", parent_sig),
+                5 => format!("\"{}\"", parent_sig),
+                6 => format!("0x{}", parent_sig),
+                7 => format!("{}\u{e9}", parent_sig),
+                _ => format!("{}=", parent_sig),
+            };
+            ov.signature = Some(s);
+        }
+        "sig-nonhex" => {
+            let mut s = parent_sig.as_bytes().to_vec();
+            let p = r.usize_below(64);
+            s[p] = *r.pick(b"gGzZ:/_");
+            ov.signature = Some(String::from_utf8(s).unwrap());
+        }
+        "signed-list-edit" => {
+            // the parent's signature with another SignedHeaders list: names added, repeated, dropped, re-cased, padded
+            let mut list = l.signed.clone();
+            match r.below(6) {
+                0 => list.push(r.pick_str(&["x-not-present", "x-amz-not-there", "zz-absent", ""]).to_string()),
+                1 => {
+                    let i = r.usize_below(list.len());
+                    list.push(list[i].clone());
+                }
+                2 => {
+                    let optional: Vec<usize> = (0..list.len()).filter(|i| list[*i] != "host").collect();
+                    if optional.is_empty() {
+                        return None;
+                    }
+                    list.remove(*r.pick(&optional));
+                }
+                3 => {
+                    let i = r.usize_below(list.len());
+                    list[i] = list[i].to_ascii_uppercase();
+                }
+                4 => {
+                    let i = r.usize_below(list.len());
+                    list[i] = if r.coin() {
+                        format!(" {}", list[i])
+                    } else {
+                        format!("{} ", list[i])
+                    };
+                }
+                _ => {
+                    // a present but unsigned header added to the list
+                    let present = crate::gen::present_header_names(l);
+                    let unsigned: Vec<&String> = present.iter().filter(|n| !list.contains(n)).collect();
+                    if unsigned.is_empty() {
+                        return None;
+                    }
+                    list.push((*r.pick(&unsigned)).clone());
+                }
+            }
+            if list == l.signed {
+                return None;
+            }
+            ov.signed = Some(list);
+        }
+        "form-pairs-edit" => {
+            let Some(fp) = l2.form_pairs.as_mut() else {
+                return None;
+            };
+            match r.below(3) {
+                0 if !fp.is_empty() => {
+                    let i = r.usize_below(fp.len());
+                    if r.coin() {
+                        flip_byte(r, &mut fp[i].1);
+                    } else {
+                        flip_byte(r, &mut fp[i].0);
+                    }
+                    if fp[i].0.starts_with(b"X-Amz-") {
+                        return None;
+                    }
+                }
+                1 if !fp.is_empty() => {
+                    let i = r.usize_below(fp.len());
+                    fp.remove(i);
+                }
+                _ => {
+                    let pos = r.usize_below(fp.len() + 1);
+                    fp.insert(pos, (b"added".to_vec(), crate::gen::gen_qtoken(r, true)));
+                }
+            }
+        }
+        "form-raw-append" => {
+            let Some(fp) = &l2.form_pairs else {
+                return None;
+            };
+            let mut b = crate::gen::form_encode_plain(fp);
+            let junk: &[u8] = r.pick_bytes(&[b"\r\n", b" ", b"\n", b"\xff", b"&", b"&=", b"&z=1", b"%00", b"\t", b"\x00", b"&&x", b"=", b"%"]);
+            if r.chance(1, 4) {
+                let mut f = junk.to_vec();
+                f.extend_from_slice(&b);
+                b = f;
+            } else {
+                b.extend_from_slice(junk);
+            }
+            ov.body_override = Some(b);
+        }
         "secret-bit" => {
             let mut s = l.secret.clone().into_bytes();
             let p = r.usize_below(s.len());
@@ -359,6 +512,10 @@ pub fn shard(seed: u64, shard: u64, n: u64, tier: Tier) -> Tally {
             if l.extra[0].1.len() < 2 {
                 l.extra[0].1.push(b"second value".to_vec());
             }
+        }
+        if r.chance(1, 6) {
+            // the last second of a minute (of an hour, of a day): where clamping and overflowing readers differ
+            l.t.s = l.t.s - l.t.s.rem_euclid(*r.pick(&[60i64, 60, 3600, 86400])) + *r.pick(&[59i64, 0]);
         }
         let delta = gen_delta_ns(&mut r) / 2; // leave room for ±1 s timestamp mutations
         let (pcase, pfacts) = {
@@ -642,13 +799,18 @@ pub fn run(tier: Tier) -> i32 {
             // refused by an earlier check by design (scope, missing parts) or neutral; still counted and reported
             continue;
         }
+        if m == "timestamp-alias" {
+            // refused when the timestamp is parsed, by design
+            ctx.gate("'timestamp-alias' children (out-of-range spellings of the parent's instant) refused", tally.get("refused_earlier/timestamp-alias"), tier.n(1000, 5000));
+            continue;
+        }
         ctx.gate(&format!("'{}' children refused at the signature comparison", m), tally.get(&format!("refused_at_comparison/{}", m)), tier.n(30, 100));
     }
     ctx.gate("signature positions refused at comparison", tally.get("sigpos_refused_at_comparison"), tier.n(64 * 3 * 16, 64 * 15 * 1500));
     ctx.exhaustive("signature positions 0-63 on each sig-position parent", true);
     let rep = Report {
         level: "exploration",
-        rule: "W-mutate: accepted W-sign parents (both carriers, all option sets, tokens) × one change each from a 30-entry catalogue (path/query/header/body/method/timestamp/secret/signature/carrier/server scope/token/raw URI byte), the child carrying the parent's signature; plus every signature position × wrong digits. Oracles: shadow verifier (on every success the presented signature must equal the reference HMAC, under the key the provider returned in that execution, of the reference string-to-sign of the request as received) and a model-free metamorphic rule for changes that alter signed content by construction. Non-trivial = a child the reference model refuses at the signature stage and the library refused with the signature-mismatch class (i.e. the comparison itself was exercised); distinct by case hash.".into(),
+        rule: "W-mutate: accepted W-sign parents (both carriers, all option sets, tokens) × one change each from a 40-entry catalogue (path/query/header/body/form pairs/method/timestamp incl. out-of-range aliases of the same instant/secret/signature incl. decorated and non-hex/SignedHeaders list/Authorization grammar/carrier/server scope/token/raw URI byte), the child carrying the parent's signature; plus every signature position × wrong digits. Oracles: shadow verifier (on every success the presented signature must equal the reference HMAC, under the key the provider returned in that execution, of the reference string-to-sign of the request as received) and a model-free metamorphic rule for changes that alter signed content by construction. Non-trivial = a child the reference model refuses at the signature stage and the library refused with the signature-mismatch class (i.e. the comparison itself was exercised); distinct by case hash.".into(),
         assumptions: vec![
             "HMAC-SHA256 unforgeability is assumed (cryptographic half of the statement)".into(),
             "reference model calibrated on the AWS vectors".into(),
